@@ -22,11 +22,12 @@ pub static PROP: Prop = Prop {
     fixed,
     replay: Some(replay),
     breadcrumb: false,
+    fuzz: &[Fuzz { target: "tiling", choice: false, runs: 1500000, max_len: 400 }],
 };
 
 fn budget(t: Tier) -> Budget {
     Budget {
-        cases: t.pick(400_000, 8_000_000),
+        cases: t.pick(4_000_000, 50_000_000),
         max_len: 400,
         shards: 16,
         dual_profile: false,
